@@ -63,6 +63,10 @@ pub struct TopicEntity {
     pub type_support: DynamicType<'static>,
     pub type_information: TypeInformation,
     pub discovered_type_representation: Vec<(TypeInformation, DiscoveredTypeRepresentationState)>,
+    /// Discovered types that were reported as inconsistent with this topic when their representation arrived
+    pub inconsistent_type_list: Vec<TypeInformation>,
+    /// Remote endpoints found to use this topic name with an inconsistent type
+    pub inconsistent_endpoint_list: Vec<InstanceHandle>,
 }
 
 impl TopicEntity {
@@ -90,7 +94,24 @@ impl TopicEntity {
             type_support,
             type_information: TypeInformation::from(type_support),
             discovered_type_representation: Vec::new(),
+            inconsistent_type_list: Vec::new(),
+            inconsistent_endpoint_list: Vec::new(),
         }
+    }
+
+    /// Records a remote endpoint whose type is inconsistent with this topic and returns true when this is a new
+    /// inconsistency to report. An endpoint is evaluated again on every discovery pass but reported only once, and
+    /// not at all when its type was already reported on arrival of its representation (type lookup reply)
+    pub fn add_inconsistent_endpoint(
+        &mut self,
+        handle: InstanceHandle,
+        type_information: Option<&TypeInformation>,
+    ) -> bool {
+        if self.inconsistent_endpoint_list.contains(&handle) {
+            return false;
+        }
+        self.inconsistent_endpoint_list.push(handle);
+        !type_information.is_some_and(|t| self.inconsistent_type_list.contains(t))
     }
 }
 
